@@ -9,6 +9,20 @@
 (*   - a block exactly AT the end of the hour epoch, then one tick later   *)
 (*   - an administrative change of a path between a send / async receive   *)
 (*     and its refund (Update, Remove+Add, Reset)                          *)
+(*   - QUOTA ARITHMETIC: the supply of the voucher is moved to a value     *)
+(*     whose  value * percent / 100  has a chosen fractional part (zero,   *)
+(*     below one half, exactly one half with an even / odd integer part,   *)
+(*     above one half), a window is started there, then flows exactly at   *)
+(*     the truncated threshold and exactly one unit above it, in both      *)
+(*     directions and for forwarded packets                                *)
+(*   - WHITELISTED address pairs: a counted transfer and a whitelisted one *)
+(*     that fails in the same window (send, receive with async ack), a     *)
+(*     whitelisted transfer beyond the quota, removal from the whitelist,  *)
+(*     pairs that only share the sender or are reversed                    *)
+(*   - BLACKLISTED denominations: refused transfers, the refund of a       *)
+(*     counted packet while its denomination is blacklisted                *)
+(*   - a packet sent while its path had no limit, refunded after the limit *)
+(*     was added                                                           *)
 (* EXCL_KF = TRUE removes exactly the input class of known finding         *)
 (* KF-C41-1 (the undo of a packet whose pending marker survived an         *)
 (* UpdateRateLimit / RemoveRateLimit of its path) from the walks.          *)
@@ -16,6 +30,7 @@
 EXTENDS RLActions, Json
 
 CONSTANTS Depth, OutDir, EXCL_KF, MACRO_PCT,
+          QPCTS,                            \* percentages of the quota-arithmetic macros
           SUPN, SUPV, NS_AB, NS_AC, NR      \* state of the real chains after set-up
 
 VARIABLES S, sched, todo, stale
@@ -52,6 +67,13 @@ OnPath(T, p) == { P \in T.pk : PathOf(P.d, P.ch) = p }
 
 BlockOf(dt) == [a |-> "Block", dt |-> IF dt < 1 THEN 1 ELSE dt]
 
+\* fractional part of  cv * pct / 100  (what a rounding threshold would get wrong)
+FracClass(cv, pct) == LET n == cv * pct  r == (cv * pct) % 100  q == (cv * pct) \div 100 IN
+    IF r = 0 THEN "zero" ELSE IF r < 50 THEN "lt" ELSE IF r > 50 THEN "gt" ELSE IF q % 2 = 0 THEN "halfe" ELSE "halfo"
+\* smallest amount of the voucher to receive so that the supply gets the wanted class (1 if there is none)
+ShiftFor(sup, pct, cls) == LET X == { x \in 1..200 : FracClass(sup + x, pct) = cls } IN
+    IF X = {} THEN 1 ELSE CHOOSE x \in X : \A y \in X : x <= y
+
 ResolveItem(T, it) ==
     IF "a" \in DOMAIN it THEN it
     ELSE LET T1 == Pre(T, BlockOf(1)) IN
@@ -64,6 +86,10 @@ ResolveItem(T, it) ==
         [] it.m = "finishAtEpochEnd" -> IF OnPath(T, it.p) = {} THEN BlockOf(1)
                                         ELSE RelayOf(MaxSeq(OnPath(T, it.p)), IF T.ep.start + HOUR - T.now + it.k < 1 THEN 1 ELSE T.ep.start + HOUR - T.now + it.k)
         [] it.m = "toEpochEnd" -> BlockOf(T.ep.start + HOUR - T.now + it.k)
+        [] it.m = "rmIfOn" -> IF T.rl[it.p].on THEN [a |-> "Remove", dt |-> 1, d |-> PathD(it.p), ch |-> PathCh(it.p)] ELSE BlockOf(1)
+        [] it.m = "supTo" -> [a |-> "Recv", dt |-> 1, d |-> "V", ch |-> "AB", amt |-> ShiftFor(T1.sup["V"], it.pct, it.cls), fate |-> "ok"]
+        [] it.m = "edgeFwd" -> [a |-> "Recv", dt |-> 1, d |-> PathD(it.p), ch |-> "AB",
+                                 amt |-> Clamp(Room(T1, it.p, "out") + it.k), fate |-> it.fate]
 
 (***************************************************************************)
 (* Macros                                                                  *)
@@ -73,7 +99,68 @@ Rcv(p, amt, fate) == [a |-> "Recv", dt |-> 1, d |-> PathD(p), ch |-> "AB", amt |
 Adm(name, p)      == [a |-> name, dt |-> 1, d |-> PathD(p), ch |-> PathCh(p)]
 Upd(p, qs, qr, du) == [a |-> "Update", dt |-> 1, d |-> PathD(p), ch |-> PathCh(p), qs |-> qs, qr |-> qr, dur |-> du]
 
+SndW(p, amt, fate, w) == [a |-> "Send", dt |-> 1, d |-> PathD(p), ch |-> PathCh(p), amt |-> amt, fate |-> fate, w |-> w]
+RcvW(p, amt, fate, w) == [a |-> "Recv", dt |-> 1, d |-> PathD(p), ch |-> "AB", amt |-> amt, fate |-> fate, w |-> w]
+Wl(name, pair)    == [a |-> name, dt |-> 1, pair |-> pair]
+Bl(name, d)       == [a |-> name, dt |-> 1, d |-> d]
+EdgeS(p, k, fate) == [m |-> "edgeSend", p |-> p, k |-> k, fate |-> fate]
+EdgeR(p, k, fate) == [m |-> "edgeRecv", p |-> p, k |-> k, fate |-> fate]
+Fin(which, p)     == [m |-> which, p |-> p, dt |-> 1]
+
 ABPaths == PATHS \cap {"N/AB", "V/AB"}
+
+(***************************************************************************)
+(* Quota arithmetic: every class of remainder, flows at / one above the    *)
+(* truncated threshold (send, receive, forwarded)                          *)
+(***************************************************************************)
+FracClasses == <<"gt", "gt", "gt", "halfo", "halfo", "halfe", "lt", "zero">>
+
+QuotaMacros(T) ==
+    UNION { UNION { UNION {
+        { << [m |-> "rmIfOn", p |-> "V/AB"], [m |-> "supTo", pct |-> pc, cls |-> cl], AddFor("V/AB", pc, pc, du),
+             EdgeS("V/AB", 0, f), EdgeS("V/AB", 1, "ok"), EdgeR("V/AB", 0, "ok"), EdgeR("V/AB", 1, "ok") >>,
+          << [m |-> "rmIfOn", p |-> "V/AB"], [m |-> "supTo", pct |-> pc, cls |-> cl], AddFor("V/AB", pc, pc, du),
+             EdgeS("V/AB", 1, "ok"), EdgeR("V/AB", 1, "ok"), EdgeR("V/AB", 0, "ok"), EdgeS("V/AB", 1, "ok"), EdgeS("V/AB", 0, f) >>,
+          << [m |-> "rmIfOn", p |-> "V/AC"], [m |-> "rmIfOn", p |-> "V/AB"], [m |-> "supTo", pct |-> pc, cls |-> cl],
+             AddFor("V/AC", pc, pc, du), [m |-> "edgeFwd", p |-> "V/AC", k |-> 1, fate |-> "fok"],
+             [m |-> "edgeFwd", p |-> "V/AC", k |-> 0, fate |-> PickOne({"fok", "ferr", "fto"})],
+             [m |-> "edgeFwd", p |-> "V/AC", k |-> 1, fate |-> "fok"], Fin("finishNewest", "V/AB") >> }
+      : f \in {PickOne({"ok", "err", "to"})} } : du \in {PickOne(DURS)} }
+      : pc \in {PickOne(QPCTS)}, cl \in {FracClasses[PickOne(1..Len(FracClasses))]} }
+
+(***************************************************************************)
+(* Whitelisted address pairs, blacklisted denominations, packets sent      *)
+(* while their path had no limit                                           *)
+(***************************************************************************)
+ListMacros(T) ==
+    UNION { UNION { UNION {
+        \* a counted transfer and a whitelisted one that fails in the same window; the room is what it was
+        { << Wl("WlAdd", SendPair(SndW(p, 1, f, 1))), Snd(p, PickOne(AMTS), PickOne({"ok", f})), SndW(p, PickOne(AMTS), f, 1),
+             Fin("finishNewest", p), EdgeS(p, 0, "ok"), EdgeS(p, 1, "ok") >>,
+          << Wl("WlAdd", RecvPair(RcvW(p, 1, fr, 1))), Rcv(p, PickOne(AMTS), "ok"), RcvW(p, PickOne(AMTS), fr, 1),
+             Fin("finishNewest", p), EdgeR(p, 0, "ok"), EdgeR(p, 1, "ok") >>,
+        \* a whitelisted transfer beyond the quota; everybody else stays limited
+          << Wl("WlAdd", SendPair(SndW(p, 1, "ok", 1))), EdgeS(p, 0, "ok"), SndW(p, PickOne(AMTS), PickOne({"ok", "to"}), 1), EdgeS(p, 1, "ok"),
+             Fin("finishNewest", p) >>,
+          << Wl("WlAdd", RecvPair(RcvW(p, 1, "ok", 1))), EdgeR(p, 0, "ok"), RcvW(p, PickOne(AMTS), PickOne({"ok", "fok", "ferr"}), 1), EdgeR(p, 1, "ok"),
+             Fin("finishNewest", p) >>,
+        \* removed from the whitelist: counted again, and undone
+          << Wl("WlAdd", SendPair(SndW(p, 1, f, 1))), SndW(p, PickOne(AMTS), f, 1), Wl("WlDel", SendPair(SndW(p, 1, f, 1))),
+             SndW(p, PickOne(AMTS), f, 1), Fin("finishOldest", p), Fin("finishNewest", p) >>,
+        \* pairs that must not match: reversed, same sender only
+          << Wl("WlAdd", "rB>uA"), Wl("WlAdd", "uB>rB"), SndW(p, PickOne(AMTS), f, 1), Rcv(p, PickOne(AMTS), "ok"), RcvW(p, PickOne(AMTS), fr, 1),
+             Fin("finishNewest", p), Fin("finishOldest", p) >>,
+        \* blacklisted denomination: refused in both directions; the refund of a counted packet while blacklisted
+          << Bl("BlAdd", PathD(p)), Snd(p, PickOne(AMTS), "ok"), Rcv(p, PickOne(AMTS), "ok"), Bl("BlDel", PathD(p)), Snd(p, PickOne(AMTS), "ok") >>,
+          << Snd(p, PickOne(AMTS), f), Rcv(p, PickOne(AMTS), fr), Bl("BlAdd", PathD(p)), Fin("finishOldest", p), Fin("finishNewest", p),
+             Bl("BlDel", PathD(p)), EdgeS(p, 0, "ok") >>,
+        \* sent while the path had no limit, refunded after the limit was added
+          << [m |-> "rmIfOn", p |-> p], Snd(p, PickOne(AMTS), f), AddFor(p, PickOne(QSS \ {0}), PickOne(QRS \ {0}), PickOne(DURS)),
+             Snd(p, PickOne(AMTS), "ok"), Fin("finishOldest", p) >>,
+          << [m |-> "rmIfOn", p |-> p], Rcv(p, PickOne(AMTS), fr), AddFor(p, PickOne(QSS \ {0}), PickOne(QRS \ {0}), PickOne(DURS)),
+             Rcv(p, PickOne(AMTS), "ok"), Fin("finishOldest", p) >> }
+      : fr \in {PickOne({"ferr", "fto"})} } : f \in {PickOne({"err", "to"})} }
+      : p \in {PickOne({ q \in ABPaths : T.rl[q].on } \cup {PickOne(ABPaths)})} }
 
 Macros(T) ==
     UNION { UNION {
@@ -118,13 +205,14 @@ Class(T, cls) ==
       [] cls = "Admin"  -> AdminActs(T)
       [] cls = "BadAdmin" -> BadAdminActs(T)
       [] cls = "XImport" -> { [a |-> "XImport", dt |-> 1] }
+      [] cls = "Lists" -> ListActs(T)
       [] cls = "EdgeSend" -> UNION { With(With(With(With(Base("Send"), "d", {PathD(p)}), "ch", {PathCh(p)}), "amt", EdgeAmts(T, p, "out")), "fate", FATES_OUT)
                                      : p \in { q \in Paths : PathCh(q) \in SEND_CH } }
       [] cls = "EdgeRecv" -> UNION { With(With(With(With(Base("Recv"), "d", {PathD(p)}), "ch", {"AB"}), "amt", EdgeAmts(T, p, "in")), "fate", FATES_IN)
                                      : p \in {"N/AB", "V/AB"} }
 
 Weights == <<"Block", "Send", "Send", "Send", "Send", "Recv", "Recv", "Recv", "Recv", "Relay", "Relay", "Relay", "Relay", "Relay",
-             "Admin", "Admin", "BadAdmin", "EdgeSend", "EdgeSend", "EdgeRecv", "XImport">>
+             "Admin", "Admin", "BadAdmin", "EdgeSend", "EdgeSend", "EdgeRecv", "XImport", "Lists", "Lists">>
 
 Pick(T) ==
     CHOOSE x \in UNION { UNION {
@@ -164,7 +252,9 @@ Next ==
     /\ Len(sched) < Depth
     /\ \E roll \in { PickOne(1..100) } :
        \E plan \in { IF todo # <<>> THEN todo
-                     ELSE IF roll <= MACRO_PCT THEN PickOne(Macros(S)) ELSE <<Pick(S)>> } :
+                     ELSE IF roll <= MACRO_PCT
+                          THEN (IF roll % 3 = 0 THEN PickOne(QuotaMacros(S)) ELSE IF roll % 3 = 1 THEN PickOne(ListMacros(S)) ELSE PickOne(Macros(S)))
+                          ELSE <<Pick(S)>> } :
        \E a0 \in { ResolveItem(S, Head(plan)) } :
        \E a \in { IF ~InClass(Pre(S, a0), a0) THEN a0
                    ELSE IF EXCL_KF THEN BlockOf(a0.dt)
